@@ -7,3 +7,4 @@ def build(run):
     PC.simple_supercell_replication(run)
     PC.trimmed_cell_reorder(run)
     run.py_contract(PC.CF, "Supercell._get_simple_supercell[SNF lattice points]", lambda: PC.snf_lattice_points(run), PC.replay_snf)
+    run.axioms += ["A-UNIF: numpy vectorised operations / reductions are uniform in the array length: the contracts of vectorised Python glue are proved on a generic small instance with distinct symbolic elements (two lattice points, one atom) and taken to hold for every length"]
